@@ -92,6 +92,7 @@ class HidDevice:
         self.on_back = None           # callback(t_us)
         self.node = "/dev/dali/daliusb-sim"   # the device node that exists while the device is present
         self.unexpected_open_failures = []
+        self.fd_base = 3              # a second gateway in the same process hands out descriptors from 1000
         self.renumber = False         # with a glob pattern: the node name changes every time the device comes back
         self.stalls = []              # [start_us, dur_us]: the host does not get round to reading (loop blocked,
         #                               process descheduled); reports pile up in the hidraw buffer until the end
@@ -158,7 +159,7 @@ class HidDevice:
             raise OSError(errno.ENOENT, "No such device")
         self.opens += 1
         self.open_attempts.append((t, True))
-        self.fd = 3 + self.opens
+        self.fd = self.fd_base + self.opens
         self.queue = []
         self.on_open()
         self.world.log.add(self.loop.time(), "open", self.name, "ok")
@@ -276,18 +277,24 @@ class FakeOS:
 
     def __init__(self, device):
         self.device = device
+        self.second = None          # another gateway (another DALI line) in the same process
+
+    def _by_fd(self, fd):
+        return self.second if (self.second is not None and fd is not None and fd >= 1000) else self.device
 
     def open(self, path, flags):
+        if self.second is not None and str(path).endswith("lineB"):
+            return self.second.os_open(path)
         return self.device.os_open(path)
 
     def close(self, fd):
-        return self.device.os_close(fd)
+        return self._by_fd(fd).os_close(fd)
 
     def read(self, fd, n):
-        return self.device.os_read(fd, n)
+        return self._by_fd(fd).os_read(fd, n)
 
     def write(self, fd, data):
-        return self.device.os_write(fd, data)
+        return self._by_fd(fd).os_write(fd, data)
 
 
 class FakeGlob:
